@@ -60,7 +60,7 @@ def tlc(module, cfg, metadir, env=None, workers=1, xmx="2g", timeout=3600, cover
     os.makedirs(metadir, exist_ok=True)
     cmd = ["java", "-XX:+UseParallelGC", "-Xmx" + xmx, "-Xss1g",
            "-Dtlc2.tool.queue.IStateQueue=StateDeque" if workers == 1 else "-Dverif=1",
-           "-cp", TLC_CP, "tlc2.TLC", "-workers", str(workers), "-metadir", metadir, "-cleanup",
+           "-cp", TLC_CP, "tlc2.TLC", "-workers", str(workers), "-checkpoint", "0", "-metadir", metadir, "-cleanup",
            "-noGenerateSpecTE", "-config", cfg]
     if coverage:
         cmd += ["-coverage", "1"]
